@@ -121,8 +121,7 @@ def run(ctx) -> None:
                   f"without the commit call the tag call is reached when {f.to_dnf()}", loc=vc.loc(tg[0]))
         a = call_arg(tg[0], prog.function("vcs.VCSAPI.tag"), "tag_name")
         ctx.check("R3", a is not None and unparse(a) == "new_version", "vcs.commit: tag_name = new_version", "vcs.commit: the tag is not named by the new version", unparse(tg[0]), loc=vc.loc(tg[0]))
-    shapes.check_passthrough(ctx, "R3", "cli._try_update", "cli._update", {"new_version": "new_version"})
-    shapes.check_passthrough(ctx, "R3", "cli.update", "cli._try_update", {"new_version": "new_version"})
+    shapes.check_passthrough(ctx, "R3", "cli.update", "cli._update", {"new_version": "new_version"})
     # git tag template tags HEAD (no explicit commit-ish): the commit just made
     for k in ("tag", "tag_light"):
         toks = shlex.split(table["git"][k].replace("{tag}", "\x01").replace("{message}", "\x02"))
